@@ -358,7 +358,7 @@ def start_function_trace():
 
     def on_start(code, offset):
         fn = code.co_filename
-        if fn.startswith(_REPO):
+        if _REPO and isinstance(fn, str) and fn.startswith(_REPO):
             _seen_code.add('%s:%s' % (fn[len(_REPO):], code.co_qualname))
         return mon.DISABLE
     mon.register_callback(_TOOL, mon.events.PY_START, on_start)
